@@ -26,7 +26,13 @@ CHECKS = {
    "DESIGN.md §5 C15"),
 }
 
-PENDING = {k: "check under construction in this session (claimed in DESIGN.md); listed here only until its engine lands" for k in ["C02","C03","C04","C06","C08","C10","C14"]}
+CHECKS["C02"] = ("reverse", "exploration",
+   "deterministic simulation: the simulator owns the instruction pointer (next/rnext) and walks one execution in seeded order with forward bursts, rewinds, replays, mid-walk compiles and armed stack/instruction-limit faults inside single steps; oracle = recorded forward history of the same execution",
+   "Seeded exploration of rewind/replay interleavings: every position of a generated program's execution is recorded the first time it is reached (ip, whole data stack, frames with locals, loop stack, special stack, every heap cell, step result); every later visit by rnext or replay must show exactly that record. Limit trips armed inside a step check that partial effects of an interrupted instruction are undone exactly. Evidence over sampled programs and walks, not a proof.",
+   "Trusted: harness, verif_hooks dump. Programs come from the grammar in sim/src/gen.rs (<= 600 steps); a step that fails is the end of the forward path (the statement does not define stepping past a failure).",
+   "DESIGN.md §5 C02")
+
+PENDING = {k: "check under construction in this session (claimed in DESIGN.md); listed here only until its engine lands" for k in ["C03","C04","C06","C08","C10","C14"]}
 
 def main():
     checks = []
